@@ -1,6 +1,7 @@
 /-
   C20 — Type-identifier conversions are lossless and consistent for all 2^32 values.
 -/
+import Mb2.Props.FnsFb
 import Mb2.Props.FnsTblIds
 import Mb2.Props.FnsTblTags
 import Mb2.Props.FnsTagType
@@ -8,6 +9,7 @@ import Mb2.Props.FnsMemType
 import Mb2.Props.FnsElfType
 import Mb2.Props.FnsFbType
 import Mb2.Ids
+import Mb2.Tags
 namespace Mb2.C20
 open Mb2
 
@@ -111,6 +113,28 @@ theorem elf_in_use_iff (n : Nat) :
 theorem fbType_total (b : Nat) : fbTypeOfByte b = if b ≤ 2 then some b else none := by
   unfold fbTypeOfByte
   by_cases h0 : b = 0 <;> by_cases h1 : b = 1 <;> by_cases h2 : b = 2 <;> simp_all <;> omega
+
+/-- ... and the whole-tag classification `FramebufferTag::buffer_type` (the model's `fbBufferType`) reports every type byte
+    above 2 as unknown, carrying that byte - WHATEVER the tag's size or colour information; type 2 is text -/
+theorem buffer_type_unknown (T : Bytes) (v : View) (h : 30 ≤ T.length) (hb : 2 < u8At T 29) :
+    fbBufferType T v = .ok (.error (u8At T 29)) := by
+  unfold fbBufferType
+  have r : rd8 T 29 = .ok (u8At T 29) := by unfold rd8; rw [if_pos (by omega)]
+  rw [r]
+  simp only [Res.bind_ok]
+  rw [fbType_total, if_neg (by omega)]
+  rfl
+
+theorem buffer_type_text (T : Bytes) (v : View) (h : 30 ≤ T.length) (hb : u8At T 29 = 2) :
+    fbBufferType T v = .ok (.ok .text) := by
+  unfold fbBufferType
+  have r : rd8 T 29 = .ok (u8At T 29) := by unfold rd8; rw [if_pos (by omega)]
+  rw [r]
+  simp only [Res.bind_ok]
+  rw [hb]
+  rfl
+
+example : fbBufferType ((List.replicate 29 0 : Bytes) ++ [7, 0, 0]) ⟨0, 32, 32, 0⟩ = .ok (.error 7) := by decide
 
 theorem magics : MBI_MAGIC = 0x36D76289 ∧ HEADER_MAGIC = 0xE85250D6 := ⟨rfl, rfl⟩
 
